@@ -1,2 +1,135 @@
-(* Proofs/FastaProofs.v *)
+(* Proofs/FastaProofs.v — the writer: chunks, Write's shape, MarshalText's
+   length self-check never fires. *)
 From Bio Require Import Base.
+From Bio.Model Require Import Fasta.
+From Bio.Spec Require Import FastaSpec.
+
+Lemma tll_eq : text_line_len = 80%nat.
+Proof. reflexivity. Qed.
+
+Lemma tll_pos : (1 <= text_line_len)%nat.
+Proof. rewrite tll_eq. lia. Qed.
+
+Local Opaque text_line_len.
+
+Lemma chunks_aux_nil f : chunks_aux f [] = [].
+Proof. destruct f; reflexivity. Qed.
+
+Lemma chunks_aux_step f b s :
+  chunks_aux (S f) (b :: s) =
+  firstn text_line_len (b :: s) :: chunks_aux f (skipn text_line_len (b :: s)).
+Proof. reflexivity. Qed.
+
+Lemma skipn_shorter (b : byte) s f :
+  (length (b :: s) <= S f)%nat -> (length (skipn text_line_len (b :: s)) <= f)%nat.
+Proof.
+  intros H. rewrite skipn_length. pose proof tll_pos. cbn [length] in *. lia.
+Qed.
+
+(* the fuel never truncates: the chunks concatenate to the whole sequence *)
+Lemma chunks_aux_concat f : forall s, (length s <= f)%nat -> concat (chunks_aux f s) = s.
+Proof.
+  induction f as [|f IH]; intros s H.
+  - destruct s; [reflexivity | cbn in H; lia].
+  - destruct s as [|b s]; [reflexivity|].
+    rewrite chunks_aux_step. cbn [concat].
+    rewrite IH by (apply skipn_shorter; exact H).
+    apply firstn_skipn.
+Qed.
+
+Lemma chunks_concat s : concat (chunks s) = s.
+Proof. apply chunks_aux_concat. apply Nat.le_refl. Qed.
+
+Lemma chunks_aux_nonnil f s : chunks_aux f s <> [] -> s <> [].
+Proof. intros H E. subst. rewrite chunks_aux_nil in H. congruence. Qed.
+
+(* every line has 1..80 bytes *)
+Lemma chunks_aux_len f : forall s, (length s <= f)%nat ->
+  Forall (fun c => (1 <= length c <= text_line_len)%nat) (chunks_aux f s).
+Proof.
+  induction f as [|f IH]; intros s H; [constructor|].
+  destruct s as [|b s]; [constructor|].
+  rewrite chunks_aux_step. constructor.
+  - rewrite firstn_length. pose proof tll_pos. cbn [length]. lia.
+  - apply IH. apply skipn_shorter. exact H.
+Qed.
+
+(* every line but the last has exactly 80 bytes *)
+Lemma chunks_aux_full f : forall s, (length s <= f)%nat ->
+  Forall (fun c => length c = text_line_len) (removelast (chunks_aux f s)).
+Proof.
+  induction f as [|f IH]; intros s H; [constructor|].
+  destruct s as [|b s]; [constructor|].
+  rewrite chunks_aux_step.
+  destruct (chunks_aux f (skipn text_line_len (b :: s))) as [|c cs] eqn:E.
+  - constructor.
+  - change (removelast (firstn text_line_len (b :: s) :: c :: cs))
+      with (firstn text_line_len (b :: s) :: removelast (c :: cs)).
+    constructor.
+    + assert (N : skipn text_line_len (b :: s) <> []).
+      { apply (chunks_aux_nonnil f). rewrite E. discriminate. }
+      rewrite firstn_length. apply Nat.min_l.
+      destruct (Nat.le_gt_cases text_line_len (length (b :: s))) as [L|L]; [exact L|].
+      exfalso. apply N. apply skipn_all2. lia.
+    + rewrite <- E. apply IH. apply skipn_shorter. exact H.
+Qed.
+
+(* the number of lines: ceil(len/80) *)
+Lemma chunks_aux_count f : forall s, (length s <= f)%nat ->
+  length (chunks_aux f s) = ((length s + text_line_len - 1) / text_line_len)%nat.
+Proof.
+  induction f as [|f IH]; intros s H.
+  - destruct s; [|cbn in H; lia]. cbn [chunks_aux length]. rewrite tll_eq. reflexivity.
+  - destruct s as [|b s].
+    + cbn [chunks_aux length]. rewrite tll_eq. reflexivity.
+    + rewrite chunks_aux_step. cbn [length].
+      rewrite IH by (apply skipn_shorter; exact H).
+      rewrite skipn_length. cbn [length]. rewrite tll_eq.
+      set (n := length s).
+      destruct (Nat.le_gt_cases 80 (S n)) as [L|L].
+      * replace (S n + 80 - 1)%nat with ((S n - 80 + 80 - 1) + 1 * 80)%nat by lia.
+        rewrite Nat.div_add by lia. lia.
+      * replace (S n - 80)%nat with 0%nat by lia.
+        change ((0 + 80 - 1) / 80)%nat with 0%nat.
+        apply (Nat.div_unique _ _ 1%nat (S n - 1)%nat); lia.
+Qed.
+
+Lemma length_concat_lines (nl : bytes) cs :
+  length (concat (map (fun c => c ++ nl) cs)) = (length (concat cs) + length cs * length nl)%nat.
+Proof.
+  induction cs as [|c cs IH]; [reflexivity|].
+  cbn [map concat length]. rewrite !app_length, IH. lia.
+Qed.
+
+Lemma write_eq r :
+  write r = GT :: name r ++ [LF] ++ concat (map (fun c => c ++ [LF]) (chunks (seq r))).
+Proof.
+  unfold write, write_calls. cbn [concat app]. rewrite <- app_assoc. reflexivity.
+Qed.
+
+Lemma write_length r : length (write r) = marshal_len r.
+Proof.
+  rewrite write_eq. cbn [length]. rewrite !app_length, length_concat_lines, chunks_concat.
+  unfold marshal_len, chunks. rewrite chunks_aux_count by apply Nat.le_refl.
+  cbn [length]. lia.
+Qed.
+
+Lemma marshal_total r : marshal_text r = Ok (write r).
+Proof. unfold marshal_text. rewrite write_length, Nat.eqb_refl. reflexivity. Qed.
+
+(* the shape of Write's output, call by call *)
+Lemma write_shape r :
+  exists cs,
+    write_calls r = (GT :: name r ++ [LF]) :: map (fun c => c ++ [LF]) cs
+    /\ concat cs = seq r
+    /\ Forall (fun c => (1 <= length c <= 80)%nat) cs
+    /\ Forall (fun c => length c = 80%nat) (removelast cs)
+    /\ length cs = ((length (seq r) + 79) / 80)%nat.
+Proof.
+  exists (chunks (seq r)). split; [reflexivity|]. split; [apply chunks_concat|].
+  rewrite <- tll_eq. unfold chunks. repeat split.
+  - apply chunks_aux_len, Nat.le_refl.
+  - apply chunks_aux_full, Nat.le_refl.
+  - rewrite chunks_aux_count by apply Nat.le_refl. rewrite tll_eq.
+    f_equal. lia.
+Qed.
